@@ -796,7 +796,7 @@ func (f *gov) genPool(s *sc) {
 func (f *gov) genVotes(s *sc) {
 	r := s.r
 	r.Rule("histories = N = 1..13 validators, 3 vote ids and 2 signature subjects, 30 seeded votes/signatures by validators, repeat voters, outsiders and missing witnesses with validator-set changes (quit, candidate approval, commitDpos) in between; distinct non-trivial = releases by (kind, N)")
-	nHist := r.Pick(156, 3900)
+	nHist := r.Pick(104, 3900)
 	for h := 0; h < nHist; h++ {
 		n := 1 + h%13
 		s.start(fmt.Sprintf("votes-N%d-%d", n, h), n, 2, 100000)
